@@ -13,6 +13,7 @@ pub struct GenCfg {
     pub handle_ops: bool,
     pub meta_ops: bool,
     pub refusal_bias: bool,
+    pub meta_heavy: bool,
 }
 
 /// A pool of names for one history: a few base names plus case variants and near misses.
@@ -119,7 +120,7 @@ pub fn gen_path(rng: &mut Rng, model: &RefModel, pool: &[String], cfg: &GenCfg, 
 
 pub fn gen_op(rng: &mut Rng, model: &RefModel, pool: &[String], cfg: &GenCfg, sizes: &[usize], salt: u64) -> String {
     let e = |s: &str| enc(s);
-    let w = rng.below(100);
+    let w = if cfg.meta_heavy && rng.chance(1, 2) { 88 + rng.below(10) } else { rng.below(100) };
     let refusal = cfg.refusal_bias && rng.chance(2, 5);
     let pe = |rng: &mut Rng, want: u64| e(&gen_path(rng, model, pool, cfg, want));
     match w {
@@ -152,10 +153,16 @@ pub fn gen_op(rng: &mut Rng, model: &RefModel, pool: &[String], cfg: &GenCfg, si
         85..=86 => format!("walkfrom {}", pe(rng, 0)),
         87 => "rootentry".to_string(),
         88..=97 if cfg.meta_ops => match rng.below(4) {
-            0 => format!("setbits {} {}", pe(rng, 0), rng.next() as u32),
+            0 => {
+                let want = *rng.pick(&[0, 1, 2, 2]);
+                format!("setbits {} {}", pe(rng, want), rng.next() as u32)
+            }
             1 => format!("setclsid {} {}", pe(rng, if refusal { 1 } else { 2 }), hex(&rng.next().to_le_bytes().iter().chain(rng.next().to_le_bytes().iter()).cloned().collect::<Vec<u8>>())),
-            2 => format!("setctime {} {} {}", pe(rng, 0), rng.below(4_000_000_000) as i64 - 2_000_000_000, rng.below(1_000_000_000)),
-            _ => format!("setmtime {} {} {}", pe(rng, 0), *rng.pick(&[0i64, -11644473600, -11644473601, 1833029933770, 1833029933771, i64::MAX, i64::MIN + 1, 1489862796]), *rng.pick(&[0u32, 99, 100, 999999999])),
+            2 => {
+                let want = *rng.pick(&[0, 1, 2, 2]);
+                format!("setctime {} {} {}", pe(rng, want), rng.below(4_000_000_000) as i64 - 2_000_000_000, rng.below(1_000_000_000))
+            }
+            _ => format!("setmtime {} {} {}", pe(rng, 2), *rng.pick(&[0i64, -11644473600, -11644473601, 1833029933770, 1833029933771, i64::MAX, i64::MIN + 1, 1489862796]), *rng.pick(&[0u32, 99, 100, 999999999])),
         },
         _ => format!("get {}", pe(rng, 1)),
     }
@@ -197,7 +204,13 @@ pub fn campaign(seed: u64, count: u64, max_ops: u64, cfg: &GenCfg, ops_path: &st
             for b in line.bytes() {
                 hash = (hash ^ b as u64).wrapping_mul(1099511628211);
             }
+            let before = if cfg.refusal_bias { Some(real.image()) } else { None };
             let observed = real.exec(&line);
+            if let Some(b) = before {
+                if is_refusal(&observed) && real.image() != b {
+                    out.violations.push(format!("history {} (seed {}) step {}: {} gave {} but the underlying bytes changed", h, seed, i, short(&line), short(&observed)));
+                }
+            }
             let expected = if line.starts_with("snap ") { Some(model.dump()) } else { model.apply(&line) };
             let kind = line.split(' ').next().unwrap().to_string();
             let okind: String = observed.split(' ').take(if observed.starts_with("err") { 2 } else { 1 }).collect::<Vec<_>>().join(" ");
@@ -226,6 +239,10 @@ pub fn campaign(seed: u64, count: u64, max_ops: u64, cfg: &GenCfg, ops_path: &st
     out
 }
 
+pub fn is_refusal(observed: &str) -> bool {
+    matches!(observed, "err notFound" | "err alreadyExists" | "err invalidInput")
+}
+
 pub fn short(s: &str) -> String {
     if s.len() > 400 { format!("{}…", s.chars().take(400).collect::<String>()) } else { s.to_string() }
 }
@@ -246,7 +263,11 @@ pub fn replay(ops_path: &str, impl_path: &str) -> Vec<String> {
             writeln!(impl_out, "skipped | -").unwrap();
             continue;
         }
+        let before = real.image();
         let observed = real.exec(line);
+        if is_refusal(&observed) && real.image() != before {
+            violations.push(format!("step {}: {} gave {} but the underlying bytes changed", i, short(line), short(&observed)));
+        }
         let expected = if line.starts_with("snap ") { Some(model.dump()) } else { model.apply(line) };
         if let Some(exp) = expected {
             if exp != observed {
